@@ -28,6 +28,11 @@ EXPLANATION = ("Theorems (Lean): gather_schedule_independent / gather_any_two_sc
 ASSUMPTIONS = ["BLAS runs single-threaded in the checks (OPENBLAS_NUM_THREADS=1)", "fork start method"]
 
 
+def tu_digest_fields(fields):
+    import hashlib
+    return hashlib.sha1(repr(sorted((k, repr(v)) for k, v in fields.items())).encode()).hexdigest()
+
+
 def run(ctx):
     common.setup_repo_import()
     import fast_ticc
@@ -73,6 +78,18 @@ def run(ctx):
         return d or None
 
     for cfg in cfgs:
+        # (e) history independence against a FRESH process: before anything is computed for this configuration, fit
+        # sibling problems of the same shape (same regime layout, values scaled by 1+2^-20; estimator flag flipped),
+        # then fit the configuration itself and compare with the same call made in a fresh interpreter
+        truth = tu.fresh_digest(cfg, common.REPO)
+        for sib in (dict(cfg, data_factor=1.0 + 2.0 ** -20), dict(cfg, biased=not cfg["biased"])):
+            call(sib, 1, False)
+        got = call(cfg, 1, False)
+        if isinstance(got, tuple) or tu_digest_fields(got) != truth:
+            ctx.violation("impl-violation", "result differs from the same call in a fresh process after sibling fits of the same "
+                          "shape were made earlier in this process", cfg, {"site": "history-dependence"})
+        ctx.count("fresh_process_comparisons")
+        ctx.case(("fresh", repr(sorted(cfg.items()))), nontrivial=True)
         ref = call(cfg, 1, False)
         # (a) same call again
         d = diff(ref, call(cfg, 1, False))
